@@ -915,6 +915,10 @@ void pgm_case(Ctx &c) {
 #define VF_PGM_GIANT(K, E, ER, F)                                                                                      \
     VF_REGISTER(std::string("pgm/") + ::vf::KT<K>::name() + ",e" #E ",er" #ER "," #F "#giant",                        \
                 (&::vf::pgm_case<K, E, ER, F, 6>), 0.00001)
+/* several lengths per run: which way a narrowed slope rounds depends on the low-order bits of (n-1+2*eps)/(n-1) */
+#define VF_PGM_GIANTS(K, E, ER, F)                                                                                     \
+    VF_REGISTER(std::string("pgm/") + ::vf::KT<K>::name() + ",e" #E ",er" #ER "," #F "#giant",                        \
+                (&::vf::pgm_case<K, E, ER, F, 6>), 0.008)
 #define VF_PGM_HUGE(K, E, ER, F)                                                                                       \
     VF_REGISTER(std::string("pgm/") + ::vf::KT<K>::name() + ",e" #E ",er" #ER "," #F "#huge",                         \
                 (&::vf::pgm_case<K, E, ER, F, 2>), 0.0003)
